@@ -335,6 +335,10 @@ func EnsureRawValue(in interface{}) reflect.Value {
 			if r, ok := v.Interface().(*_refHolder); ok {
 				return r.value
 			}
+			// the ref list keeps a map by pointer: a ref to it denotes the map itself
+			if v.Kind() == reflect.Ptr && v.Elem().Kind() == reflect.Map {
+				return v.Elem()
+			}
 		}
 		return v
 	}
@@ -448,6 +452,10 @@ func EnsureInterface(in interface{}, err error) (interface{}, error) {
 		return in, err
 	}
 	if v, ok := in.(reflect.Value); ok {
+		// the ref list keeps a map by pointer: a ref to it denotes the map itself
+		if v.Kind() == reflect.Ptr && v.Elem().Kind() == reflect.Map {
+			v = v.Elem()
+		}
 		in = v.Interface()
 	}
 	if v, ok := in.(*_refHolder); ok {
